@@ -890,6 +890,7 @@ htp_status_t htp_connp_RES_HEADERS(htp_connp_t *connp) {
                     // hanldes LF-CR sequence as end of line
                     OUT_COPY_BYTE_OR_RETURN(connp);
                     lfcrending = 1;
+                    HTP_VERIF_TRACE(1, connp, connp->out_tx, 0);
                 }
             }
 
